@@ -406,6 +406,24 @@ func genC09(seed uint64, idx int) *Plan {
 		if len(re.Suites) > 1 {
 			re.Suites = append([]echbox.Suite{re.Suites[len(re.Suites)-1]}, re.Suites[:len(re.Suites)-1]...)
 		}
+		switch (idx / 3) % 3 {
+		case 1:
+			// ... and without the suite the hello uses (the operator narrowed the
+			// list when it re-issued the config)
+			if used := base.Target.Suites[base.SuiteIdx%len(base.Target.Suites)]; len(base.Target.Suites) > 1 {
+				re.Suites = nil
+				for _, su := range base.Target.Suites {
+					if su != used {
+						re.Suites = append(re.Suites, su)
+					}
+				}
+			}
+		case 2:
+			// ... and for another public name
+			if pn := "reissued." + base.Target.PublicName; len(pn) <= 250 {
+				re.PublicName = pn
+			}
+		}
 		k.Others = append(k.Others, re)
 		if len(k.Others) > 3 {
 			k.Others = k.Others[1:]
